@@ -493,7 +493,37 @@ class Tt4Card(SimBase):
 
     # -- activation
     def ats(self):
-        return [0x05, 0x70 | self.fsci, 0x80, (self.fwi << 4) | 0x00, 0x02]
+        # ats_layout: which of the interface bytes TA(1), TB(1), TC(1) the
+        # ATS carries (any subset is standard-conformant; without TB(1) the
+        # default FWI 4 applies)
+        layout = getattr(self, "ats_layout", "ABC")
+        t0 = self.fsci | (0x10 if "A" in layout else 0) | (0x20 if "B" in layout else 0) | \
+            (0x40 if "C" in layout else 0)
+        body = [t0]
+        if "A" in layout:
+            body.append(0x80)
+        if "B" in layout:
+            body.append((self.fwi << 4) | 0x00)
+        if "C" in layout:
+            body.append(0x02)
+        return [1 + len(body)] + body
+
+    def announced_fwt(self):
+        fwi = self.fwi if "B" in getattr(self, "ats_layout", "ABC") or self.typ == "B" else 4
+        return 4096 / 13.56E6 * (2 ** fwi)
+
+    def exchange(self, cmd, timeout):
+        # busy_fraction: the card needs that fraction of its announced frame
+        # waiting time to execute a command and does not listen meanwhile; a
+        # reader that waits at least FWT never notices
+        self.cur_timeout = timeout
+        if getattr(self, "busy_left", 0) > 0:
+            self.ncmd += 1
+            if self.max_cmds is not None and self.ncmd > self.max_cmds:
+                raise TooManyCommands()
+            self.busy_left -= timeout
+            raise nfc.clf.TimeoutError("card busy")
+        return SimBase.exchange(self, cmd, timeout)
 
     def execute(self, cmd):
         if not self.activated:
@@ -529,6 +559,14 @@ class Tt4Card(SimBase):
                 self.pending = rsp
                 self.wtx_left = getattr(self, "wtx_count", 1) - 1
                 return self._send([0xF2, 0x01])     # S(WTX) request, WTXM 1
+            frac = getattr(self, "busy_fraction", None)
+            if frac:
+                busy = frac * self.announced_fwt()
+                if self.cur_timeout is not None and self.cur_timeout < busy:
+                    # the reader stops waiting before the card has finished
+                    self.busy_left = busy - self.cur_timeout
+                    self._start_response(rsp)
+                    raise nfc.clf.TimeoutError("card still busy")
             return self._start_response(rsp)
         if (pcb & 0xF6) == 0xA2 or (pcb & 0xF6) == 0xB2:    # R-block
             if len(cmd) != 1:
